@@ -20,9 +20,20 @@ Inductive tstmt := StAssignRet (* retValue = fcn(); *) | StSetFlag (* jobFinishe
 Inductive getkind := GetGuarded    (* if (!jobFinished) wait(); return retValue; *)
                    | GetAlwaysWait (* wait(); return retValue; *)
                    | GetNoWait     (* return retValue; *).
+(* memory order of an operation on jobFinished (MNonAtomic: the flag is not a std::atomic) *)
+Inductive morder := MNonAtomic | MRelaxed | MConsume | MAcquire | MRelease | MAcqRel | MSeqCst.
+Definition releases (o : morder) : bool := match o with MRelease | MAcqRel | MSeqCst => true | _ => false end.
+Definition acquires (o : morder) : bool := match o with MAcquire | MAcqRel | MSeqCst => true | _ => false end.
+(* get() returns retValue WITHOUT waiting once it has read the flag as true: the flag is then the only thing that orders
+   "retValue = fcn()" before "return retValue".  It does so iff every store of the flag in the task is release-or-stronger
+   and every load in finished()/valid()/get() is acquire-or-stronger (std::atomic's default seq_cst is both). *)
+Definition flag_publishes (stores loads : list morder) : bool :=
+  match stores with [] => false | _ => forallb releases stores && forallb acquires loads end.
+
 Inductive errk := ERet  (* operation on retValue outside its lifetime *)
                 | EFlag (* access to jobFinished outside its lifetime *)
-                | EImpl (* wait on / destruction of taskImpl outside its lifetime, or destruction while the task runs *).
+                | EImpl (* wait on / destruction of taskImpl outside its lifetime, or destruction while the task runs *)
+                | ERace (* get() took the no-wait path on a flag that does not publish the result: data race on retValue *).
 (* events on the retValue slot (what the instrumented payload of the harness records) *)
 Inductive sev := SConstruct | SAssign | SRead | SDestroy.
 
@@ -31,7 +42,8 @@ Record facts := mkfacts {
   f_task : list tstmt;         (* statement order of the task lambda *)
   f_get : getkind;
   f_dtor_waits : bool;         (* ~AsyncTask calls wait() *)
-  f_flag_atomic : bool         (* jobFinished is a std::atomic<bool> *)
+  f_flag_publishes : bool      (* flag_publishes (orders of the flag stores) (orders of the flag loads): an atomic flag whose
+                                  stores are release-or-stronger and whose loads are acquire-or-stronger *)
 }.
 Record cfg := mkcfg { c_facts : facts; c_launch : launch; c_trivial : bool }.
 
@@ -188,7 +200,10 @@ Definition step_client (c : cfg) (s : state) : list (list sev * state) :=
       ([], set_cp s (if f_dtor_waits f then CDtorW else CDtor 0)) ]
   | CGet0 =>
     match f_get f with
-    | GetGuarded => if is_live (lflag s) then [([], set_cp s (if vflag s then CGetR else CGetW))]
+    | GetGuarded => if is_live (lflag s)
+                    then (if vflag s
+                          then (if f_flag_publishes f then [([], set_cp s CGetR)] else [([], set_err s ERace)])
+                          else [([], set_cp s CGetW)])
                     else [([], set_err s EFlag)]
     | GetAlwaysWait => [([], set_cp s CGetW)]
     | GetNoWait => [([], set_cp s CGetR)]
@@ -217,7 +232,7 @@ Definition succs (c : cfg) (s : state) : list state := map snd (succs_ev c s).
 (* ---------------------------------------------------------- decidable equality *)
 Definition life_eqb (a b : life) := match a, b with Raw, Raw | Live, Live | Dead, Dead => true | _, _ => false end.
 Definition val_eqb (a b : val) := match a, b with VIndet, VIndet | VDefault, VDefault | VResult, VResult => true | _, _ => false end.
-Definition errk_eqb (a b : errk) := match a, b with ERet, ERet | EFlag, EFlag | EImpl, EImpl => true | _, _ => false end.
+Definition errk_eqb (a b : errk) := match a, b with ERet, ERet | EFlag, EFlag | EImpl, EImpl | ERace, ERace => true | _, _ => false end.
 Definition opt_eqb {A} (e : A -> A -> bool) (a b : option A) :=
   match a, b with None, None => true | Some x, Some y => e x y | _, _ => false end.
 Definition tpc_eqb (a b : tpc) :=
